@@ -1,4 +1,7 @@
 """C01 — Published tree is relying-party valid and says exactly what was configured."""
+import sys
+from pathlib import Path
+sys.path.insert(0, str(Path(__file__).resolve().parent))
 import objlib
 
 RULE = ("stream system judged by `kmodel sysobjects C01`: seeded histories (ROA/ASPA/BGPsec deltas incl. invalid ones, child "
